@@ -2,6 +2,7 @@
 from __future__ import annotations
 
 import ast
+import re
 from typing import Callable, Dict, List, Optional, Sequence, Set, Tuple
 
 from ..core import Collector, guarded, norm, Unrecognised, AnchorMissing
@@ -142,16 +143,97 @@ def reference_equality(ctx, col: Collector, rule: str):
                   f'equality compares {sorted(compared)}', 'extra attributes take part in equality', node=ref.node,
                   file='pydbml/_classes/reference.py')
         # the generic __eq__ really drops dont_compare_fields and compares the rest
-        eqf = idx.func('pydbml._classes.base', 'SQLObject.__eq__')
-        src = norm(eqf.node)
-        pops = [n for n in walk_no_nested(eqf.node) if isinstance(n, ast.Call) and isinstance(n.func, ast.Attribute) and n.func.attr == 'pop']
-        loops = [n for n in walk_no_nested(eqf.node) if isinstance(n, ast.For) and 'dont_compare_fields' in norm(n.iter)]
-        col.check(len(pops) >= 2 and bool(loops), rule, 'SQLObject.__eq__:drops-fields',
-                  'generic equality removes dont_compare_fields from both sides',
-                  'SQLObject.__eq__ no longer removes dont_compare_fields from both attribute dicts', node=eqf.node, file=eqf.file)
+        # read with its helpers in place; per side: how the compared dict is made from the instance's attribute dict
+        from .common import expanded as _expanded
+        eqf = _expanded(ctx, 'pydbml._classes.base', 'SQLObject.__eq__')
+        verdict, why = eq_drops_fields(eqf.node)
+        cons_eq = 'SQLObject.__eq__:drops-fields'
+        if verdict == 'ok':
+            col.ok(rule, cons_eq, 'generic equality compares the attribute dicts of both sides with dont_compare_fields removed (keys unchanged)', node=eqf.node, file=eqf.file)
+        elif verdict == 'bad':
+            col.bad(rule, cons_eq, f'SQLObject.__eq__ {why}', node=eqf.node, file=eqf.file)
+        else:
+            col.unk(rule, cons_eq, f'cannot read how SQLObject.__eq__ builds the dicts it compares: {why}', node=eqf.node, file=eqf.file)
         col.check('__eq__' not in ref.methods, rule, 'Reference.__eq__:inherited', 'Reference uses the generic equality',
                   'Reference overrides __eq__ (unrecognised comparison)', node=ref.node, file='pydbml/_classes/reference.py')
     guarded(col, rule, 'Reference.eq', f)
+
+
+def eq_drops_fields(fn: ast.FunctionDef):
+    """('ok'|'bad'|'unk', why): does the function return `D(self) == D(other)` where D(x) is x's attribute dict minus x.dont_compare_fields, keys as they are?
+    Read by dataflow over the spellings a dict copy and a removal can take (copy + pop loop, comprehension with a `not in` filter, `{**d}`, vars())."""
+    rets = [n for n in walk_no_nested(fn) if isinstance(n, ast.Return) and isinstance(n.value, ast.Compare) and len(n.value.ops) == 1 and isinstance(n.value.ops[0], ast.Eq)]
+    if not rets:
+        return 'unk', 'no `return A == B`'
+    cmp_ = rets[-1].value
+    assigns = {}
+    for n in walk_no_nested(fn):
+        if isinstance(n, ast.Assign) and len(n.targets) == 1 and isinstance(n.targets[0], ast.Name):
+            assigns.setdefault(n.targets[0].id, []).append(n.value)
+    # names from which the dont_compare_fields entries are removed in a loop / individually
+    popped = set()
+    for n in walk_no_nested(fn):
+        if isinstance(n, ast.For) and 'dont_compare_fields' in norm(n.iter) and isinstance(n.target, ast.Name):
+            for c in ast.walk(n):
+                if isinstance(c, ast.Call) and isinstance(c.func, ast.Attribute) and c.func.attr == 'pop' and isinstance(c.func.value, ast.Name) \
+                        and c.args and isinstance(c.args[0], ast.Name) and c.args[0].id == n.target.id:
+                    popped.add(c.func.value.id)
+                if isinstance(c, ast.Delete):
+                    for t in c.targets:
+                        if isinstance(t, ast.Subscript) and isinstance(t.value, ast.Name) and isinstance(t.slice, ast.Name) and t.slice.id == n.target.id:
+                            popped.add(t.value.id)
+
+    def is_attr_dict(e) -> bool:
+        src = norm(e).replace(' ', '')
+        return bool(re.fullmatch(r'(\w+)\.__dict__|vars\(\w+\)', src))
+
+    def side(e, depth=0):
+        """(verdict, drops, why) for one compared operand"""
+        if depth > 4:
+            return 'unk', False, 'too deep'
+        if isinstance(e, ast.Name):
+            vals = assigns.get(e.id, [])
+            if len(vals) != 1:
+                return 'unk', False, f'`{e.id}` is bound {len(vals)} times'
+            v, d, w = side(vals[0], depth + 1)
+            return v, d or e.id in popped, w
+        if isinstance(e, ast.Call) and isinstance(e.func, ast.Name) and e.func.id == 'dict' and len(e.args) == 1 and not e.keywords:
+            return side(e.args[0], depth + 1) if not is_attr_dict(e.args[0]) else ('ok', False, '')
+        if isinstance(e, ast.Call) and isinstance(e.func, ast.Attribute) and e.func.attr == 'copy' and not e.args and is_attr_dict(e.func.value):
+            return 'ok', False, ''
+        if isinstance(e, ast.Dict) and len(e.keys) == 1 and e.keys[0] is None and is_attr_dict(e.values[0]):
+            return 'ok', False, ''
+        if is_attr_dict(e):
+            return 'ok', False, ''           # compared in place (nothing removed unless popped - which would change the object; not the case here)
+        if isinstance(e, ast.DictComp) and len(e.generators) == 1:
+            g = e.generators[0]
+            it = g.iter
+            if not (isinstance(it, ast.Call) and isinstance(it.func, ast.Attribute) and it.func.attr == 'items' and is_attr_dict(it.func.value)
+                    and isinstance(g.target, ast.Tuple) and len(g.target.elts) == 2 and all(isinstance(x, ast.Name) for x in g.target.elts)):
+                return 'unk', False, f'comprehension over `{norm(it)[:40]}`'
+            kv, vv = g.target.elts[0].id, g.target.elts[1].id
+            if not (isinstance(e.key, ast.Name) and e.key.id == kv):
+                return 'bad', False, (f'compares the attributes under changed keys (`{norm(e.key)[:40]}` instead of the attribute name): the names listed in '
+                                      f'dont_compare_fields (`_inline`, ...) no longer match the keys, so those fields take part in equality')
+            if not (isinstance(e.value, ast.Name) and e.value.id == vv):
+                return 'unk', False, f'values are transformed (`{norm(e.value)[:40]}`)'
+            drops = any('dont_compare_fields' in norm(c) and isinstance(c, ast.Compare) and isinstance(c.ops[0], ast.NotIn) and norm(c.left) == kv for c in g.ifs)
+            other_ifs = [c for c in g.ifs if 'dont_compare_fields' not in norm(c)]
+            if other_ifs:
+                return 'unk', drops, f'further filter `{norm(other_ifs[0])[:40]}`'
+            return 'ok', drops, ''
+        return 'unk', False, f'operand `{norm(e)[:50]}`'
+    res = [side(cmp_.left), side(cmp_.comparators[0])]
+    for v, d, w in res:
+        if v == 'bad':
+            return 'bad', w
+    for v, d, w in res:
+        if v == 'unk':
+            return 'unk', w
+    if all(d for _, d, _ in res):
+        return 'ok', ''
+    return 'bad', 'compares the attribute dicts without removing dont_compare_fields from ' + ('either side' if not any(d for _, d, _ in res) else 'one of the sides') + \
+        ': back-pointers and the fields a class excludes (Reference: database, _inline, comment) take part in equality'
 
 
 # ----------------------------------------------------------------------------------------------
